@@ -24,7 +24,9 @@ by too little, pooling, early exits, refactorings, over-broad hardening, swapped
 studies of real Go code (slice aliasing, range / shadowing slips, integer conversions, byte vs rune, operator slips, switch
 slips, nil vs empty, comparators, map order, early returns) and asked for classes not used before; round 6 (`r6`) asked for an inventory of the public routes to the behaviour
 (constructors, options, modes, alternative entry points, optional members) and a mistake on a route an ordinary test is least likely to travel; round 7 (`r7`) asked for
-changes outside the anchored files (helper packages, option plumbing) whose violation needs two independent ordinary conditions to coincide. `/verif/regress_seeded.sh` re-applies every kept
+changes outside the anchored files (helper packages, option plumbing) whose violation needs two independent ordinary conditions to coincide; round 8 (`r8`) asked the agent to imagine a model-based test harness
+for the property and to hide the change in one of its likely blind spots (unmodelled result members, list order, Go / JSON types, echoed values, side effects on
+arguments, long histories, operations after refused or degraded ones, permissive and restrictive configurations, second calls). `/verif/regress_seeded.sh` re-applies every kept
 change and re-runs the quick tier of its property, so a later edit of a check cannot silently lose one.
 
 **%d changes kept; %d were missed at first and led to a stronger check** (all are caught now):
@@ -55,6 +57,12 @@ What the misses had in common, and the general lesson applied across checks:
   parsing, ParseOperation, the anchored form, zero-value and constructed validators, delta validation under several
   configurations, appliers written as struct literals, NewJWS with its header and serialization options, re-spelled and
   type-less requests to the document handler;
+* *blind spots of a model-based harness* (round 8): the anchoring envelope says something else than the request, configurations
+  at both ends (nothing allowed; nonce sizes up to 128), documents with thousands of small containers, Go-typed values
+  (string models, []string lists), results edited by the caller and asked for again, states transformed twice, bytes parsed
+  only after everything else was serialized, operations listed as unpublished while they are applied, earlier operations anchored
+  later, operations after a degraded recover, optional members added (not just replaced) by the corruption engine, and a
+  first-use storm as the first case of every worker process;
 * *a hang ended as "inconclusive"* (C20 recursive read lock): lock-ups of the registries are detected inside the case with the
   goroutine dump as witness, and a C20 case timeout is a violation.
 
